@@ -205,19 +205,27 @@ def isObjectCls : Cls → Bool
   | .object _ => true
   | _ => false
 
-/-- `_parse_composition` -/
-def assembleComposition (cx : PCtx) (k : SKw) (p : Parts) (dflt : Option JVal)
-    (anyOf oneOf allOf : List Elem) (not : Option Elem) : Elem :=
-  let base := assembleBase cx k p none
-  let notL := match not with
-    | some e => [Elem.mk .not {} [] none none [] [] none none [] [e]]
-    | none => []
-  let allL := [base] ++ allOf ++ [composeElements .oneOf oneOf] ++ [composeElements .anyOf anyOf] ++ notL
-  let element := composeElements .allOf (allL.filter fun e => !e.isTrivial)
+/-- the members of the outer `AllOf` that `_parse_composition` builds, before filtering -/
+def compositionMembers (base : Elem) (anyOf oneOf allOf : List Elem) (not : Option Elem) : List Elem :=
+  [base] ++ allOf ++ [composeElements .oneOf oneOf] ++ [composeElements .anyOf anyOf] ++
+    (match not with
+     | some e => [Elem.mk .not {} [] none none [] [] none none [] [e]]
+     | none => [])
+
+/-- the last lines of `_parse_composition`: where the schema's `default` goes -/
+def finishComposition (element : Elem) (dflt : Option JVal) : Elem :=
   if isObjectCls element.cls then Elem.compose .allOf [element] dflt
   else match dflt with
     | some d => element.withDefault (some d)
     | none => element
+
+/-- `_parse_composition` -/
+def assembleComposition (cx : PCtx) (k : SKw) (p : Parts) (dflt : Option JVal)
+    (anyOf oneOf allOf : List Elem) (not : Option Elem) : Elem :=
+  finishComposition
+    (composeElements .allOf
+      ((compositionMembers (assembleBase cx k p none) anyOf oneOf allOf not).filter fun e => !e.isTrivial))
+    dflt
 
 def hasComposition (k : SKw) (not : Option Elem) : Bool :=
   k.hasAnyOf || k.hasOneOf || k.hasAllOf || not.isSome
